@@ -60,8 +60,15 @@ var Plugin = plugins.Plugin{
 
 var recLock sync.RWMutex
 
-// StaticRecords holds a MAC -> IP address mapping
+// StaticRecords holds a MAC -> IP address mapping. It is the table of the
+// DHCPv6 instance; the DHCPv4 handler also serves from it as long as no DHCPv4
+// instance has loaded a lease file of its own (see staticRecords4).
 var StaticRecords map[string]net.IP
+
+// staticRecords4 is the table of the DHCPv4 instance. With a single table for
+// both protocols, the instance that was set up (or refreshed) last replaced
+// the other protocol's leases in a dual-stack configuration.
+var staticRecords4 map[string]net.IP
 
 // DHCPv6Records and DHCPv4Records are mappings between MAC addresses in
 // form of a string, to network configurations.
@@ -189,7 +196,11 @@ func Handler4(req, resp *dhcpv4.DHCPv4) (*dhcpv4.DHCPv4, bool) {
 	recLock.RLock()
 	defer recLock.RUnlock()
 
-	ipaddr, ok := StaticRecords[req.ClientHWAddr.String()]
+	records := staticRecords4
+	if records == nil {
+		records = StaticRecords
+	}
+	ipaddr, ok := records[req.ClientHWAddr.String()]
 	if !ok {
 		log.Warningf("MAC address %s is unknown", req.ClientHWAddr.String())
 		return resp, false
@@ -276,7 +287,11 @@ func loadFromFile(v6 bool, filename string) error {
 	recLock.Lock()
 	defer recLock.Unlock()
 
-	StaticRecords = records
+	if v6 {
+		StaticRecords = records
+	} else {
+		staticRecords4 = records
+	}
 
 	return nil
 }
